@@ -29,10 +29,15 @@ random configuration some explored path shows an instance change (the replay def
 reset reproducing the same instance — makes that impossible), and the number of paths whose instances
 are all identical is reported.
 
-Program transformations: a deterministic (seed-rotated) subset of full-depth paths is replayed with
-per-call jit(W.step), jit(vmap(W.step)) on batches of 2-3 different paths, jit(lax.scan(W.step)) and
-plain un-jitted per-call W.reset/W.step; the eager run is checked against the oracle again (bare env
-through jit(env.step)/jit(env.reset) per call) and all modes must agree (ints exact, floats 1e-5).
+Program transformations: the exploration itself runs W.step under jit(vmap(vmap)); a deterministic
+(seed-rotated, most episode boundaries first) subset of full-depth paths is then replayed with
+jit(lax.scan(W.step)) along the path, jit(vmap(W.step)) on batches of 2-3 different paths at once and plain
+un-jitted per-call W.reset/W.step; the eager run is checked against the oracle again (bare env through
+per-call jit(env.step)/jit(env.reset)) and all modes must agree step by step (ints exact, floats 1e-5).
+Python-scalar state leaves (FlatPack's num_blocks, ...) are canonicalised with jnp.asarray before
+comparing (DESIGN §2), otherwise an eager reset's weak-typed int64 would differ from jit's int32.
+Nothing enumerated or counted depends on the wall clock or on VERIF_SEED (the seed only rotates which
+explored paths are replayed).
 """
 from __future__ import annotations
 
